@@ -202,11 +202,17 @@ func extraObligations(prog *Program, prop, tier string) []*lemmaQuery {
 	if prop == "C06" {
 		return resetDefaultLemmas(prog)
 	}
-	if prop == "C16" || prop == "C17" || prop == "C20" {
-		return schemaLemmas(prog)
+	var out0 []*lemmaQuery
+	switch prop {
+	case "C01", "C02", "C03", "C04", "C05", "C07", "C08", "C09", "C10", "C16", "C17", "C20":
+		// every property about stored client data depends on columns storing exactly what is written
+		out0 = schemaLemmas(prog)
+	}
+	if prop == "C16" || prop == "C17" || prop == "C20" || prop == "C01" || prop == "C02" || prop == "C03" || prop == "C04" || prop == "C07" || prop == "C08" || prop == "C09" || prop == "C10" {
+		return out0
 	}
 	if prop == "C05" {
-		return derivedIdLemmas(prog)
+		return append(out0, derivedIdLemmas(prog)...)
 	}
 	if prop != "C14" {
 		return nil
